@@ -144,6 +144,57 @@ def handle (req : Json) : Except String Json := do
     pure (obj [("lines", linesJ ls), ("hyp", Json.bool hyp),
                ("want", ofList pairJ (attrs.map (fun a => (a.name.2, a.typ.enc dense)))),
                ("model", exJ (ofList pairJ) (arffAttrs dense [] ls))])
+  | "tablewrite" =>
+    -- spec side of a whole dense file: header + @data + rows → lines, hypotheses of arff_dense_table_roundtrip, expected and model result
+    let q ← nat (← field req "q")
+    let also ← natList (← field req "also")
+    let dkw ← natList (← field req "dkw")
+    let attrs ← (← arr (← field req "attrs")).mapM (fun a => do
+      let kw ← natList (← field a "kw"); let sep ← nat (← field a "sep"); let name ← parseTok (← field a "name")
+      let gap ← natList (← field a "gap"); let typ ← parseTypeW (← field a "typ")
+      pure (⟨kw, sep, name, gap, typ⟩ : AttrW))
+    let rows ← (← arr (← field req "rows")).mapM (fun r => do
+      let pad ← nat (← field r "pad")
+      let cells ← (← arr (← field r "cells")).mapM (fun c => do
+        let qd ← bool (← field c "q")
+        let k ← str (← field c "k")
+        let t ← natList (fieldD c "t" (Json.arr #[]))
+        let cw : CellW := match k with | "missing" => .missing | "num" => .num t | "str" => .str t | _ => .cat t
+        pure (qd, cw))
+      pure (pad, cells))
+    let alsoF := fun c => also.contains c
+    let encs := attrs.map (·.typ.enc true)
+    let ls := attrs.map (·.line q alsoF) ++ dkw :: rows.map (fun r => denseRowLine q alsoF r.1 r.2)
+    let hyp := (q == SQ || q == DQ) && !attrs.isEmpty && attrs.all (·.ok true) && (attrs.map (·.name.2)).Nodup &&
+      lowerAscii dkw == kwData && !rows.isEmpty && rows.all (fun r => denseRowWOk q alsoF r.1 encs r.2) &&
+      (match rows with | r :: _ => notBraced (denseRowLine q alsoF r.1 r.2) | [] => true)
+    let want := ArffResult.dense (attrs.map (·.name.2)) (rows.map fun r => ⟨rowOut encs r.2, r.2.any (·.2.isMissing)⟩)
+    pure (obj [("lines", linesJ ls), ("hyp", Json.bool hyp), ("want", arffJ want), ("model", exJ arffJ (arffReadN ls))])
+  | "chunkskip" =>
+    -- a stream with an n-byte header the decompressor swallows (empty outputs for the first chunks)
+    let cs ← texts (← field req "chunks")
+    let n ← nat (← field req "n")
+    pure (obj [("fix", exJ linesJ (readFix (Decomp.skip n) cs)), ("whole", exJ linesJ (readWhole (Decomp.skip n) cs.flatten)),
+               ("pieces", ofList textJ (decompChunks (Decomp.skip n) n cs))])
+  | "readerrun" =>
+    -- one reader object on a history of inputs
+    let kind ← str (← field req "kind")
+    let rk : ReaderKind ← (match kind with
+      | "csv" => do
+        let d ← parseDialect req
+        let h ← bool (fieldD req "header" (Json.bool false))
+        pure (ReaderKind.csv d h)
+      | "arff" => pure ReaderKind.arff
+      | "manik" => pure ReaderKind.manik
+      | _ => pure ReaderKind.libsvm)
+    let hist ← (← arr (← field req "inputs")).mapM (fun i => do
+      let ls ← texts (← field i "lines"); let ab ← bool (← field i "abandon"); pure (ls, ab))
+    let resJ : Option ReadResult → Json
+      | none => Json.null
+      | some (.csv r) => exJ csvJ r
+      | some (.arff r) => exJ arffJ r
+      | some (.svm r) => exJ (ofList svmRowJ) r
+    pure (obj [("results", ofList resJ (readerRun rk hist))])
   | "arffdense" =>
     -- data lines of a dense ARFF file through one ArffLineReader (simple path only)
     let ls ← texts (← field req "lines")
